@@ -1355,6 +1355,35 @@ def py_overlap(U, a, b):
     return len(a[2]) == len(b[2]) and all(py_overlap(U, x, y) for x, y in zip(a[2], b[2]))
 
 
+def py_meet(U, a, b):
+    """a pattern below both `a` and `b` where one is easy to write down (used to aim the generator
+    at the overlap of two signatures; correctness is not needed, candidates are re-checked)"""
+    if py_sub(U, a, b):
+        return a
+    if py_sub(U, b, a):
+        return b
+    if a[0] == "u":
+        for x in a[1]:
+            if py_overlap(U, x, b):
+                return py_meet(U, x, b)
+    if b[0] == "u":
+        return py_meet(U, b, a)
+    if a[0] == "g" and b[0] == "g":
+        k = a[1] if U.L(a[1], b[1]) else b[1]
+        if a[2] and b[2] and len(a[2]) == len(b[2]):
+            return ("g", k, tuple(py_meet(U, x, y) for x, y in zip(a[2], b[2])))
+        return ("g", k, a[2] or b[2])
+    if a[0] == "t" and b[0] == "t" and len(a[1]) == len(b[1]):
+        return ("t", tuple(py_meet(U, x, y) for x, y in zip(a[1], b[1])))
+    if a[0] == "t" and b[0] == "tv":
+        return ("t", tuple(py_meet(U, x, b[1]) for x in a[1]))
+    if a[0] == "tv" and b[0] == "t":
+        return py_meet(U, b, a)
+    if a[0] == "c" and b[0] != "c":
+        return b
+    return a
+
+
 def py_sig_overlap(U, a, b):
     alts = lambda s: s[1] if s[0] == "v" else [s]   # noqa: E731
     if not a and not b:
@@ -1486,15 +1515,20 @@ def gen_dispatch_cases(ctx, U, D, observed):
         for (i, j) in py_hidden_ambiguities(U, it):
             ctx.count("dispatch:hidden-ambiguous-pairs" + (":listed" if is_listed_ambiguity(it, i, j) else ":UNLISTED"))
             got = 0
+            ei, ej = it["enc"][i], it["enc"][j]
             for attempt in range(300):
                 si = (i, j)[attempt % 2]
                 tys = []
-                for s in it["enc"][si]:
-                    if s[0] == "v":
-                        for _ in range(rng.choice([0, 1, 2])):
-                            tys.append(instantiate(U, rng, rng.choice(s[1])[1], argpool))
-                    else:
-                        tys.append(instantiate(U, rng, s[1], argpool))
+                if len(ei) == len(ej) and not any(s[0] == "v" for s in ei + ej) and attempt % 3 != 2:
+                    for sa, sb in zip(ei, ej):     # aim at the meet of the two patterns
+                        tys.append(instantiate(U, rng, py_meet(U, sa[1], sb[1]), argpool))
+                else:
+                    for s in it["enc"][si]:
+                        if s[0] == "v":
+                            for _ in range(rng.choice([0, 1, 2])):
+                                tys.append(instantiate(U, rng, rng.choice(s[1])[1], argpool))
+                        else:
+                            tys.append(instantiate(U, rng, s[1], argpool))
                 try:
                     tys = tuple(canon(U, t) for t in tys)
                     rt = tuple(typing_wrap(U.dec(t)) for t in tys)
